@@ -103,6 +103,20 @@ theorem runBody_sim (c : ICtx) (D : Env) (body : Expr) (binds : List (Nat × Seq
   unfold runBody
   exact Sim.map (hev body _ _) _ (fun a => rfl)
 
+theorem typedBody_sim (c : ICtx) (D : Env) (body : Expr) (ps : List Nat) (sig : Option Sig)
+    (full : List Seq) (env : Option Env) (lex : Env) :
+    Sim Prod.fst
+      (do let conv ← IM.lift (sigArgs sig full)
+          let r ← runBody cfg ev c D body (ps.zip conv) env lex
+          let v ← IM.lift (sigRes sig r.1)
+          pure (v, r.2))
+      (do let conv ← SM.lift (sigArgs sig full)
+          let r ← sev body { lex := ps.zip conv ++ lex, item := none }
+          SM.lift (sigRes sig r)) := by
+  apply Sim.bnd (p := id) (Sim.lift _); intro conv
+  apply Sim.bnd (runBody_sim cfg ev sev hev c D body _ _ _); intro r
+  exact Sim.map (Sim.lift _) _ (fun _ => rfl)
+
 theorem callFn_sim (c : ICtx) (D : Env) (a : Nat) (args : List Seq) :
     Sim Prod.fst (callFn cfg ev c D a args) (specCall sev a args) := by
   unfold callFn specCall
@@ -142,7 +156,7 @@ theorem callFn_sim (c : ICtx) (D : Env) (a : Nat) (args : List Seq) :
       · simp only [h, BEq.rfl, if_true]
         apply currentVars_sim
         intro e
-        exact runBody_sim cfg ev sev hev c D body _ _ _
+        exact typedBody_sim cfg ev sev hev c D body ps o.sig args _ _
       · have h' : (ps.length == args.length) = false := by
           simp only [beq_eq_false_iff_ne, ne_eq]; exact fun h2 => h h2.symm
         simp only [h', Bool.false_eq_true, if_false, h]
@@ -158,8 +172,8 @@ theorem callFn_sim (c : ICtx) (D : Env) (a : Nat) (args : List Seq) :
         simp only [Flags.none, Flags.mk.injEq, decide_eq_false_iff_not, Decidable.not_not, and_true,
           true_and] at hfl
         have hl : (fill pat args).length = ps.length := by rw [fill_length pat args h, hfl]
-        simp only [hl, if_true, zipFill_eq]
-        exact runBody_sim cfg ev sev hev c D body _ _ _
+        simp only [hl, if_true]
+        exact typedBody_sim cfg ev sev hev c D body ps o.sig (fill pat args) _ _
       · have h' : (holes pat == args.length) = false := by
           simp only [beq_eq_false_iff_ne, ne_eq]; exact fun h2 => h h2.symm
         simp only [h', Bool.false_eq_true, if_false, h, SM.throw_bind]
@@ -182,6 +196,8 @@ theorem partialApply_sim (c : ICtx) (D : Env) (a : Nat) (args : List (Option Exp
     intro e
     apply Sim.bnd (evalArgs_sim ev sev hev c args D)
     intro r
+    apply Sim.bnd (p := id) (Sim.lift _)
+    intro pat'
     apply Sim.bnd (p := id) (Sim.alloc _)
     intro n
     exact Sim.ret _ _ _ rfl
@@ -454,6 +470,16 @@ theorem step_sim (e : Expr) (c : ICtx) (D : Env) :
     apply Sim.bnd (hev v c D); intro xv
     exact Sim.map (hev b _ _) _ (fun _ => rfl)
   | fnE t ps body =>
+    simp only [step, specStep]
+    cases cfg.share
+    · simp only [Bool.false_eq_true, if_false, pure_bind]
+      apply Sim.bnd (p := id) (Sim.alloc _); intro n
+      exact Sim.ret _ _ _ rfl
+    · simp only [if_true]
+      apply Sim.silent_bind (silent_setSlot _ _); intro _
+      apply Sim.bnd (p := id) (Sim.alloc _); intro n
+      exact Sim.ret _ _ _ rfl
+  | tfnE t ps tys rt body =>
     simp only [step, specStep]
     cases cfg.share
     · simp only [Bool.false_eq_true, if_false, pure_bind]
